@@ -74,6 +74,13 @@ def lib(fn, *args, **kwargs):
 
 
 def _alarm(signum, frame):
+    # never raise while a garbage-collection callback of Hypothesis is on the stack (the exception would surface in its internals): try again shortly
+    f = frame
+    while f is not None:
+        if f.f_code.co_name == "gc_callback":
+            signal.alarm(1)
+            return
+        f = f.f_back
     raise Inconclusive("watchdog")
 
 
